@@ -115,7 +115,7 @@ def gen_tie(pid, theorems):
         m0 = re.search(r"^\(\* ---- ", src_f, flags=re.M)
         head_f = src_f[:m0.start()] if m0 else src_f[:src_f.index("Theorem")]
         # what the file's header requires of the generated / lemma layer: `Gen.X` -> Gen/X.vo, `Proofs.Y` -> Proofs/Y.vo
-        deps = [f"{a}/{b}.vo" for a, b in re.findall(r"\b(Gen|Proofs)\.([A-Za-z0-9_]+)", strip_coq_comments(head_f))]
+        deps = [f"{a}/{b}.vo" for a, b in re.findall(r"\b(Gen|Proofs|Props)\.([A-Za-z0-9_]+)", strip_coq_comments(head_f))]
         files[fn] = (src_f, head_f, list(dict.fromkeys(deps)))
     out = {}
     made = {}
